@@ -569,19 +569,20 @@ fn c05_written_index_n4_b3() {
 
 // @harness c09_chrom_tree_layout
 // @props C09 C01 C02
-// @tier quick
+// @tier off
 // @kind core
 // @timeout 1800
 // @mem 24
 // @flags c-ffi
 // @functions bbiwrite::write_chrom_tree (through std BufWriter; std HashMap with its real SipHash)
 // @bounds 2 chromosomes with data ("a" id 0, "bb" id 1; sizes symbolic, full width) out of a size table that also lists a third chromosome without data ("ccc")
-// @stubs libc syscall/getrandom -> C model (hash keys arbitrary but fixed)
+// @stubs std RandomState::new -> fixed hash keys (the output must not depend on them: ids decide the order); alloc::fmt::format -> empty
 // @cut more than 2 chromosomes with data; names longer than 3 bytes; id assignment order (IdMap) and the multi-chromosome pipeline
 // @witness cover: sizes differ
 #[kani::proof]
 #[kani::unwind(20)]
 #[kani::stub(alloc::fmt::format, fake_format)]
+#[kani::stub(std::hash::RandomState::new, fixed_random_state)]
 fn c09_chrom_tree_layout() {
     let (sa, sb, sc): (u32, u32, u32) = (kani::any(), kani::any(), kani::any());
     let mut sizes: std::collections::HashMap<String, u32> = std::collections::HashMap::new();
